@@ -53,7 +53,9 @@ partial def parsePat (j : Json) : Option Pat := do
   | "wild" => some .wild
   | "node" => some (.node (← asNat a[1]!) (← (← asArr a[2]!).toList.mapM parsePat))
   | "type" => some (.type (← asNat a[1]!))
+  | "ctx" => some .ctxInst
   | "types" => some (.types (← asNats a[1]!))
+  | "typesF" => some (.typesF (← asNats a[1]!) (← asNat a[2]!) (← (← asArr a[3]!).toList.mapM parsePat))
   | "m" => some (.m (← parsePat a[1]!) (optNat a[2]!) (← parsePairs a[3]!))
   | "mnot" => some (.mnot (← parsePat a[1]!) (optNat a[2]!) (← parsePairs a[3]!))
   | "mmaybe" => some (.mmaybe (← parsePat a[1]!) (optNat a[2]!) (← parsePairs a[3]!))
@@ -105,8 +107,7 @@ def dispatch (f : String) (j : Json) : Option Json :=
       let some maxlen := getNat j "maxlen" | return Json.mkObj [("err", "bad maxlen")]
       let some nl := getNat j "nl" | return Json.mkObj [("err", "bad nl")]
       let ts := allTargets maxlen nl
-      return Json.mkObj [("m", Json.arr (ts.map (fun xs => optDict (matchList ps xs))).toArray),
-                         ("s", Json.arr (ts.map (fun xs => optDict (specMatch ps xs))).toArray)]
+      return Json.mkObj [("m", Json.arr (ts.map (fun xs => optDict (matchList ps xs))).toArray)]
   | "C17.tree" => some <| Id.run do
       let some p := (get j "p").bind parsePat | return Json.mkObj [("err", "bad pat")]
       let some t := (get j "t").bind parseTree | return Json.mkObj [("err", "bad tree")]
